@@ -93,10 +93,85 @@ func runC12(w *World, r *Report) {
 				}
 				extra = append(extra, guardText(g))
 			}
+			// a compound condition (a && b) in front of a `continue` dominates nothing: also ask the path question — can an
+			// iteration get back to the loop header without this store, other than through the unexported-field arm?
+			skips, wit := iterationSkipsExcept(im, fw.in, func(from, to *ssa.BasicBlock) bool {
+				if len(from.Instrs) == 0 {
+					return false
+				}
+				iff, ok := from.Instrs[len(from.Instrs)-1].(*ssa.If)
+				if !ok || !isPkgPathGuard(guard{cond: iff.Cond, pol: true, at: iff}) {
+					return false
+				}
+				op, _, _, _ := asCmp(iff.Cond)
+				// the arm on which PkgPath != "" (unexported): false successor of ==, true successor of !=
+				if op == token.EQL {
+					return to == from.Succs[1]
+				}
+				return to == from.Succs[0]
+			})
+			if skips {
+				extra = append(extra, "some iteration bypasses the store ("+wit+")")
+			}
 			r.Check(len(extra) == 0, "C12.every-element-encoded", fmt.Sprintf("internalMarshal: store #%d into %s", n, fw.field.Name()), fw.in.Pos(), "reached on every iteration (loop test / err == nil / exported-field test only)", "the element is written only when "+strings.Join(extra, " && ")+": an element the encoder decides to leave out is decoded as the zero value of its HOLDER — for an interface-typed field or element that is a nil interface, not the int 0 / \"\" / typed nil pointer that was stored (deeply different, silently)")
 		}
 		if n < 3 {
 			r.Fail("C12.every-element-encoded", "internalMarshal: element stores", im.Pos(), fmt.Sprintf("%d element stores inside loops found (struct fields, map entries, slice elements expected)", n))
+		}
+	}
+
+	// ---- the bytes handed to the store belong to the store: what Marshal (and every []byte-returning function of the
+	// serialization package) returns does not alias an object that outlives the call — a pooled buffer, a package-level
+	// buffer — which the next Marshal would overwrite
+	r.Rule("C12.marshal-result-owned", "no []byte returned by a function of internal/serialization derives from a sync.Pool object or a package-level variable", 1)
+	{
+		n := 0
+		for _, fn := range w.RepoFuncs("internal/serialization") {
+			res := fn.Signature.Results()
+			bi := -1
+			for i := 0; i < res.Len(); i++ {
+				if sl, ok := res.At(i).Type().Underlying().(*types.Slice); ok {
+					if b, ok := sl.Elem().Underlying().(*types.Basic); ok && b.Kind() == types.Byte {
+						bi = i
+					}
+				}
+			}
+			if bi < 0 || len(fn.Blocks) == 0 {
+				continue
+			}
+			n++
+			var longLived []ssa.Value
+			instrs(fn, func(in ssa.Instruction) {
+				if c, ok := in.(*ssa.Call); ok && calleeFullName(c) == "(*sync.Pool).Get" {
+					longLived = append(longLived, c)
+				}
+				if u, ok := in.(*ssa.UnOp); ok {
+					if g, ok := u.X.(*ssa.Global); ok && g.Pkg == fn.Pkg {
+						if _, isPtr := u.Type().Underlying().(*types.Pointer); isPtr {
+							longLived = append(longLived, u)
+						}
+						if _, isSl := u.Type().Underlying().(*types.Slice); isSl {
+							longLived = append(longLived, u)
+						}
+					}
+				}
+			})
+			bad := ""
+			instrs(fn, func(in ssa.Instruction) {
+				ret, ok := in.(*ssa.Return)
+				if !ok || bi >= len(ret.Results) {
+					return
+				}
+				for _, ll := range longLived {
+					if derivesFrom(returnedValue(ret, bi), ll) {
+						bad = valText(ll)
+					}
+				}
+			})
+			r.Check(bad == "", "C12.marshal-result-owned", w.fname(origin(fn))+" returns bytes of its own", fn.Pos(), "the returned slice derives from no pooled / package-level object", "the returned []byte derives from "+bad+": a store that keeps the slice it is given holds memory the next call overwrites — resuming checkpoint A after checkpoint B was written restores B's inputs and state (or undecodable bytes), and the serializer reports no error")
+		}
+		if n == 0 {
+			r.Fail("C12.marshal-result-owned", "[]byte-returning functions of internal/serialization", w.Fn("internal/serialization", "Marshal").Pos(), "none found")
 		}
 	}
 
